@@ -57,6 +57,7 @@ func caseList(quick bool) ([]segment, int) {
 			segment{Kind: "wire-resp-content", Net: n, Count: q(200, 4000)},
 			segment{Kind: "wire-resp-offerresp", Net: n, Count: q(200, 4000)},
 			segment{Kind: "wire-stream", Net: n, Count: q(24, 300)},
+			segment{Kind: "findcontent-stored", Net: n, Count: q(48, 480)},
 		)
 	}
 	segs = append(segs, segment{Kind: "wire-utp", Net: "history", Count: q(3000, 80000)})
